@@ -44,7 +44,7 @@ func C05(c *core.Ctx) {
 	if c.Thorough() {
 		dev = 2
 	}
-	c.Rep.Bound = fmt.Sprintf("ENUM x HIST: the valid packet corpus, every (third) truncation and single-byte corruptions of its length/flag fields, oversized announced lengths, and every cut point of a valid exchange, each sent before and after CONNECT on the attacker's connection, followed by a cut / more bytes / nothing, with a witness publisher and subscriber exchanging numbered messages before and after; SCHED: the attacker (subscribed to the witness topic; reading, not reading, or with a full outgoing ring) is cut, sends garbage, sends DISCONNECT or runs into its keep-alive while the witness publishes to it, every schedule deviating from the default at <= %d points from the cut on", dev)
+	c.Rep.Bound = fmt.Sprintf("ENUM x HIST: the valid packet corpus, every (third) truncation and single-byte corruptions of its length/flag fields, oversized announced lengths, and every cut point of a valid exchange, each sent before and after CONNECT on the attacker's connection, followed by a cut / more bytes / nothing, with a witness publisher and subscriber exchanging numbered messages before and after; 13 odd CONNECTs naming a victim's client id (invalid will topics, flag inconsistencies, levels), attacker cut / disconnects / stays, then the victim connects with CleanSession 0/1, subscribes and receives; SCHED: the attacker (subscribed to the witness topic; reading, not reading, or with a full outgoing ring) is cut, sends garbage, sends DISCONNECT or runs into its keep-alive while the witness publishes to it, every schedule deviating from the default at <= %d points from the cut on", dev)
 	c.Rep.Rule = "oracle: no library goroutine panics outside a recover (the process stays up), the witness connections stay open, answer PINGREQ and receive exactly the numbered messages, in order; nothing is demanded of the attacker's own connection; non-trivial = streams after which the attacker's connection was closed by the broker"
 	comps := map[string]bool{"route": true, "closed": true, "acks": true, "stream": true}
 	if c.Replay != nil {
@@ -59,6 +59,7 @@ func C05(c *core.Ctx) {
 			c.Rep.Scenarios++
 			return
 		}
+		c05poison(c)
 		c05sched(c, dev)
 		return
 	}
@@ -135,6 +136,10 @@ func C05(c *core.Ctx) {
 	}
 	c.Rep.Scenarios++
 	c.Rep.Sample(map[string]interface{}{"search": "hostile streams", "streams": len(streams), "modes": "before/after CONNECT x nothing/cut/more", "example": fmt.Sprintf("%x", streams[17])})
+	c05poison(c)
+	if c.HasViolation() || c.Expired() {
+		return
+	}
 	c05sched(c, dev)
 }
 
